@@ -43,11 +43,12 @@ def run(rep):
     S = ('param', q, strs[0]['pat']['name'])
     P = ('param', q, opts[0]['pat']['name'])
     want = ('alt', [(('t', ('is_some', P)), None), (TRUE, None)])
-    ok_shape = src[0] == 'alt' and len(src[1]) == 2 and src[1][0][0] == ('t', ('is_some', P)) and src[1][1][0] == TRUE
+    dl = E.decision_list(src)       # if / match / early-return formulations of the same two-way choice normalise to one decision list
+    ok_shape = len(dl) == 2 and dl[0][0] == [('t', ('is_some', P))] and dl[1][0] == []
     rep.check(ok_shape, 'C16.selection', 'source-selection', where,
               f'SOURCE is {E.show(src, maxdepth=6)}; expected a choice made solely by the presence of the include path', ok_detail='include path present ? include_str! : literal')
     if ok_shape:
-        inc, emb = src[1][0][1], src[1][1][1]
+        inc, emb = dl[0][1], dl[1][1]
         ok_inc = inc[0] == 'tmpl' and E.tmpl_text(inc).replace(' ', '') == 'include_str!(#' + list(E.holes(inc))[0] + ')' and list(E.holes(inc).values())[0] == ('unwrap', P)
         rep.check(ok_inc, 'C16.include-path', 'include-path', where,
                   f'the include variant is `{E.tmpl_text(inc) if inc[0] == "tmpl" else E.show(inc, maxdepth=4)}` with {E.show(list(E.holes(inc).values())[0], maxdepth=6) if inc[0] == "tmpl" and E.holes(inc) else None}; '
